@@ -1804,6 +1804,23 @@ impl<'tcx> Cx<'tcx> {
         };
         matches!(ty.kind(), ty::Param(_) | ty::Float(_) | ty::Int(_) | ty::Uint(_) | ty::Alias(..))
     }
+    /// is `<t as PartialOrd>::partial_cmp` the `#[derive(PartialOrd)]` one (lexicographic over the fields)?  A hand-written impl
+    /// is interpreted like any other code.
+    fn partial_ord_is_derived(&self, t: Ty<'tcx>) -> bool {
+        let tcx = self.tcx;
+        let Some(tr) = tcx.lang_items().partial_ord_trait() else { return false };
+        let Some(m) = tcx.associated_items(tr).in_definition_order().find(|a| a.name().as_str() == "partial_cmp") else { return false };
+        let args = tcx.mk_args(&[t.into(), t.into()]);
+        let r = std::panic::catch_unwind(std::panic::AssertUnwindSafe(|| Instance::try_resolve(tcx, self.tenv, m.def_id, args)));
+        match r {
+            Ok(Ok(Some(inst))) => {
+                let did = inst.def_id();
+                let parent = tcx.parent(did);
+                tcx.is_automatically_derived(parent)
+            }
+            _ => false,
+        }
+    }
     fn deref_val(&self, st: &State<'tcx>, v: &V<'tcx>) -> R<V<'tcx>> {
         let mut cur = v.clone();
         for _ in 0..4 {
@@ -1863,7 +1880,7 @@ impl<'tcx> Cx<'tcx> {
                     _ => t0,
                 };
                 let same_rhs = argtys.get(1).map(|t| { let t = match t.kind() { ty::Ref(_, i, _) => *i, _ => *t }; t == t0 }).unwrap_or(false);
-                if same_rhs && matches!(t0.kind(), ty::Adt(d, _) if d.is_struct()) && self.leaf_count(t0) == 1 {
+                if same_rhs && matches!(t0.kind(), ty::Adt(d, _) if d.is_struct()) && self.leaf_count(t0) == 1 && self.partial_ord_is_derived(t0) {
                     let (a, b) = (self.deref_val(st, &argv[0])?, self.deref_val(st, &argv[1])?);
                     let (mut la, mut lb) = (vec![], vec![]);
                     self.flatten(&a, t0, &mut la);
@@ -2266,6 +2283,26 @@ impl<'tcx> Cx<'tcx> {
             }
             let t = self.sc(st, &argv[0])?;
             return Ok(Some(V::Sym(app("len", vec![t]))));
+        }
+        // `slice::from_raw_parts(_mut)(p, n)` with p pointing at element i of an array (view) and a concrete n: the window [i, i + n)
+        if matches!(pretty, "core::slice::from_raw_parts" | "core::slice::from_raw_parts_mut" | "std::slice::from_raw_parts" | "std::slice::from_raw_parts_mut") {
+            if let (Some(V::Ref(p)), Some(V::Int(n))) = (argv.first(), argv.get(1)) {
+                if p.win.is_none() {
+                    let mut q = p.clone();
+                    if let Some(PE::F(i)) = q.segs.last_mut().and_then(|sg| sg.path.pop()) {
+                        if let Ok(cty) = self.ptr_ty(st, &q) {
+                            if let ty::Array(_, m) = cty.kind() {
+                                if let Some(m) = m.try_to_target_usize(self.tcx) {
+                                    if i + (*n as usize) <= m as usize {
+                                        q.win = Some((i, *n as usize));
+                                        return Ok(Some(V::Ref(q)));
+                                    }
+                                }
+                            }
+                        }
+                    }
+                }
+            }
         }
         // integer intrinsics on concrete operands (index arithmetic such as `last.saturating_sub(1)`)
         if let Some(m) = pretty.strip_prefix("std::intrinsics::").or_else(|| pretty.strip_prefix("core::intrinsics::")) {
